@@ -189,7 +189,7 @@ def setup(ctx):
     hook.wrap(ptychography_base.PtychographyBase, "_propagate_array", post=post_propagate, ctx=ctx)
     hook.wrap(object_models.ObjectBase, "_propagate_array", post=post_propagate, ctx=ctx)
 
-    # ---- scatter in situ: adjoint identity against the all-ones object and a fixed pseudo-random object ---
+    # ---- scatter in situ: adjoint identity against a fixed pseudo-random real object -------------------------
     def post_sum_patches(tok, a, k, res):
         L = live()
         if L is None:
